@@ -549,8 +549,13 @@ def one_shot(rep, f, c):
         site = sp_str(b.raw['span'])
         got = {}
         none_ok = False
+        extra = []
         for p in [p for p in region_paths(b, 0) if feasible(p) and p.end[0] == 'return']:
             sw = [(const_bytes(f, e[1][2][1]), e[2]) for e in p.conds() if e[1][0] == 'call' and (e[1][1] or '').endswith('::starts_with') and strip_ref(e[1][2][0]) == ('loc', 1)]
+            # the answer may depend on nothing but the three prefix tests (an additional length guard changes it for the two-byte BOMs)
+            other = [e for e in p.conds() if not (e[1][0] == 'call' and (e[1][1] or '').endswith('::starts_with')) and e[1][0] != 'c']
+            if other:
+                extra.append(expr_str(other[0][1], b)[:80])
             rv = p.env.get(0)
             pos = [bts for bts, t in sw if t]
             if rv is not None and variant_name(rv) == 'Some' and len(pos) == 1:
@@ -559,6 +564,8 @@ def one_shot(rep, f, c):
             elif rv is not None and variant_name(rv) == 'None' and not pos and len(sw) == 3:
                 none_ok = True
         want = {v: (k, len(v)) for k, v in BOMS.items()}
+        rep.ob('C10-D2.for_bom.only-prefix-tests', fn, not extra,
+               'for_bom\'s answer depends on a condition other than the three prefix tests: %s' % extra[:2], site, None, c)
         rep.ob('C10-D2.for_bom', fn, got == want and none_ok,
                'for_bom does not recognise exactly EF BB BF -> (UTF_8,3), FF FE -> (UTF_16LE,2), FE FF -> (UTF_16BE,2): %r' % {k.hex(): v for k, v in got.items()},
                site, {'prefixes': {k.hex(): list(v) for k, v in got.items()}}, c)
